@@ -88,7 +88,7 @@
     } \
     else { /* IPv6-address-literal = "IPv6:" IPv6-addr */ \
         ch = brs + 6; \
-        if ((strncmp (brs + 1, "IPv6:", 5) != 0) || (is_ipaddr (ch, bre) == 0)) { \
+        if ((strncmp (brs + 1, "IPv6:", 5) != 0) || (is_ipv6 (ch, bre) == 0)) { \
             result->rc = inverse(EEAV_IPADDR_INVALID); \
             return result; \
         } \
